@@ -47,6 +47,8 @@ mod rec;
 mod line;
 #[path = "../shared/c09_hdr.rs"]
 mod hdr;
+#[path = "../shared/c09_file.rs"]
+mod file;
 
 // -------------------------------------------------------------------------------------------
 // plumbing around the real reader / writer
@@ -527,6 +529,8 @@ fn run(c: &Case) -> Obs {
         "ltxt" => line::run_ltxt(c),
         "multi" => line::run_multi(c),
         "lzb" => line::run_lzb(c),
+        "file" => file::run_file(c),
+        "ftxt" => file::run_ftxt(c),
         "rec" => rec::run_rec(c),
         "hdr" => rec::run_hdr(c),
         "bad" => rec::run_bad(c),
@@ -556,6 +560,11 @@ fn generate(rng: &mut Rng, tier: &str, w: &mut CaseWriter) {
         hdr::gen_hw(rng, w, i % 3 == 2);
     }
     hdr::gen_hp(rng, w, if thorough { 3000 } else { 250 });
+    // whole files (header + records in one text) against NV.Vcf.File
+    for _ in 0..(if thorough { 3000 } else { 250 }) {
+        file::gen_file(rng, w);
+    }
+    file::gen_ftxt(rng, w, if thorough { 3000 } else { 250 });
 }
 
 fn main() {
